@@ -140,7 +140,7 @@ theorem poolRollback_spec {w : World} {p : Pid} {pl : Nat} {x : Pool} (hi : Pool
     inUseOf (poolRollback w p pl ini) pl + heldOf w pl p = inUseOf w pl + heldOf (poolRollback w p pl ini) pl p := by
   have hv := poolView_of_get hx
   have vok := (hi.2 pl _ hv).1
-  have hok : HoldersOK w.procs.size x.holders := vok.toHoldersOK
+  have hok : HoldersOK w.procs.size (prOf w) x.holders := vok.toHoldersOK
   have hnow : heldAmount w pl p = amountOf (abs x.holders) (p + 1) := heldAmount_eq hv vok.wf p
   have hh0 : heldOf w pl p = amountOf (abs x.holders) (p + 1) := (PSt.init hi hv).heldOf p
   have hu0 : inUseOf w pl = x.inUse := (PSt.init hi hv).inUseOf
@@ -205,7 +205,7 @@ theorem poolRelease_spec {w : World} {p : Pid} {pl : Nat} {x : Pool} (hi : PoolI
     inUseOf (execCmd w p (.poolRelease pl n)).1 pl + n = inUseOf w pl := by
   have hv := poolView_of_get hx
   have vok := (hi.2 pl _ hv).1
-  have hok : HoldersOK w.procs.size x.holders := vok.toHoldersOK
+  have hok : HoldersOK w.procs.size (prOf w) x.holders := vok.toHoldersOK
   have hnow : heldAmount w pl p = amountOf (abs x.holders) (p + 1) := heldAmount_eq hv vok.wf p
   have hh0 : heldOf w pl p = amountOf (abs x.holders) (p + 1) := (PSt.init hi hv).heldOf p
   have hu0 : inUseOf w pl = x.inUse := (PSt.init hi hv).inUseOf
@@ -315,7 +315,7 @@ theorem poolMug_takes {w : World} {p : Pid} {pl : Nat} {x : Pool} (hi : PoolInv 
       heldOf w pl ((x.holders.tag 1).key - 1) = (x.holders.tag 1).item.b := by
   have hv := poolView_of_get hx
   have vok := (hi.2 pl _ hv).1
-  have hok : HoldersOK w.procs.size x.holders := vok.toHoldersOK
+  have hok : HoldersOK w.procs.size (prOf w) x.holders := vok.toHoldersOK
   have hpos : 0 < x.holders.count := by omega
   obtain ⟨h1, hdq, ok1, _, hkeys1, hmem1, hamt1, _, _⟩ := dequeue_holders hok hpos
   obtain ⟨hk1, hk2⟩ := key_pred_succ hok hmem1
